@@ -183,6 +183,10 @@ func RunW(w *WCase) {
 		mem.FaultErr = errors.New("database is locked")
 	case "deadlock":
 		mem.FaultErr = errors.New("ERROR: deadlock detected; try restarting transaction (SQLSTATE 40P01)")
+	case "exists":
+		mem.FaultErr = errors.New("table \"t\" already exists (relation \"t\" already exists; Error 1050: Table 't' already exists)")
+	case "nosuch":
+		mem.FaultErr = errors.New("no such table: t (relation \"t\" does not exist; Error 1146: Table 'db.t' doesn't exist)")
 	case "serialize":
 		mem.FaultErr = errors.New("could not serialize access due to concurrent update; lock wait timeout exceeded")
 	}
@@ -502,6 +506,19 @@ func RunR(r *RCase) {
 		}
 		r.Out = okFrame(res)
 	}()
+	// one import runs its query at most once, and sends nothing else to the database
+	queries, others := 0, 0
+	for _, c := range mem.Log {
+		switch c.Kind {
+		case "query":
+			queries++
+		case "exec", "commit":
+			others++
+		}
+	}
+	if queries > 1 || others > 0 {
+		r.Out = Out{Status: "panic", Msg: fmt.Sprintf("the import ran its query %d times and sent %d other statements; original result: %s", queries, others, r.Out.Status)}
+	}
 	// the caller's handler map must come back exactly as it was passed
 	if r.liveMap != nil {
 		same := len(r.liveMap) == len(r.Handler.M)
